@@ -551,8 +551,8 @@ def step_observe(h, tok, p):
             if r1 != r3:
                 bad('idempotence:to_boc', f'to_boc({O.boc_flags(f1)}) differs before/after to_boc({O.boc_flags(f2)})', r3.hex(), r1.hex())
             for f, r in ((f1, r1), (f2, r2)):
-                if r[4] >> 5 != f:
-                    bad('order-dependence:to_boc', f'to_boc{O.boc_flags(f)} returned a BoC whose header says options {O.boc_flags(r[4] >> 5)} '
+                if O.boc_header_flags(r) != f:
+                    bad('order-dependence:to_boc', f'to_boc{O.boc_flags(f)} returned a BoC whose header says options {O.boc_flags(O.boc_header_flags(r))} '
                         '(result depends on an earlier call)', r.hex(), f'flag bits {f:03b}')
                 key = (o.hash, f)
                 was = h.ctx_boc.setdefault(key, r)
@@ -979,15 +979,15 @@ def gen(h, rng):
             if c is not None:
                 how = rng.choice(['hash', 'rh', 'rep', 'boc', 'boc', 'boc', 'order', 'order', 'order0', 'orderd'])
                 if how == 'boc':
-                    f1 = rng.randrange(8)
-                    return [f'ob:{c}:boc:{f1}:{rng.choice([x for x in range(8) if x != f1])}']
+                    f1 = O.rand_boc_flags(rng)
+                    return [f'ob:{c}:boc:{f1}:{O.rand_boc_flags(rng, exclude=f1)}']
                 if how.startswith('order'):
                     return [f'ob:{c}:{how}:{pick(h, rng, "c")}']
                 return [f'ob:{c}:{how}']
         elif k == 'fb':
             c = pick(h, rng, 'c')
             if c is not None and len(h.pool) < MAX_POOL - 12:
-                return [f'fb:{c}:{rng.randrange(8)}:{rng.choice("CCSB")}']
+                return [f'fb:{c}:{O.rand_boc_flags(rng)}:{rng.choice("CCSB")}']
         elif k == 'comp':
             t = g_composite(h, rng)
             if t:
@@ -1148,10 +1148,10 @@ def probe_to_boc(ctx):
         return begin_cell().store_uint(7, 5).store_ref(leaf).store_ref(begin_cell().store_ref(leaf).end_cell()).end_cell()
 
     x, y = mk(), mk()
-    inp = {'probe': 'to_boc-options', 'call': 'to_boc under the 8 (has_idx, hash_crc32, has_cache_bits) sets, ascending on one cell, descending on an equal cell, 3 times'}
+    inp = {'probe': 'to_boc-options', 'call': 'to_boc under the 32 (has_idx, hash_crc32, has_cache_bits, flags) sets, ascending on one cell, descending on an equal cell, 3 times'}
     res = {}
     for rep in range(3):
-        for cell, order in ((x, range(8)), (y, reversed(range(8)))):
+        for cell, order in ((x, range(32)), (y, reversed(range(32)))):
             for f in order:
                 ctx.case(('probe-boc', rep, f, cell is x))
                 r = cell.to_boc(*O.boc_flags(f))
@@ -1160,14 +1160,14 @@ def probe_to_boc(ctx):
                     ctx.fail('probe:to_boc-options', f'to_boc{O.boc_flags(f)} gave different bytes on an equal cell / a later call', inp, r.hex(), was.hex())
                     return
                 hd = Boc.deserialize_boc_header(r)
-                got = (bool(hd['has_idx']), bool(hd['hash_crc32']), bool(hd['has_cache_bits']))
+                got = (bool(hd['has_idx']), bool(hd['hash_crc32']), bool(hd['has_cache_bits']), (r[4] >> 3) & 3)
                 if got != O.boc_flags(f):
                     ctx.fail('probe:to_boc-options', f'to_boc{O.boc_flags(f)} returned a BoC with options {got}: the result depends on an earlier call', inp, r.hex(), None)
                     return
                 if Cell.one_from_boc(r).hash != x.hash:
                     ctx.fail('probe:to_boc-options', f'to_boc{O.boc_flags(f)} does not parse back to the cell', inp, r.hex(), None)
                     return
-    if len({bytes(v) for v in res.values()}) != 8:
+    if len({bytes(v) for v in res.values()}) != 32:
         ctx.fail('probe:to_boc-options', 'two different option sets gave the same bytes', inp, None, None)
 
 
@@ -1331,7 +1331,7 @@ def rand_call(h, rng):
         rec = {'f': f}
         n = len(O.dag_of(P[c])[0])
         if f == 'boc':
-            rec['flags'] = rng.randrange(8)
+            rec['flags'] = O.rand_boc_flags(rng)
         elif f == 'slice':
             ops = []
             for _ in range(rng.randrange(1, 6)):
